@@ -14,10 +14,11 @@ RULE = ('all 256 one-byte contents; two-byte contents (quick: every lead byte x 
         'equal the decoded indicator; distinct = (content class, requested mode, outcome, decoded mode) combinations and '
         'distinct two-byte values')
 ASSUMPTIONS = common.ASSUME_QR + ['empty content with a requested mode is not judged (vacuous representability)']
-REQUIRED = ['evaluations', 'encode_observed', 'symbols_decoded', 'auto_mode_checked', 'requested_mode_honoured',
+REQUIRED = ['sequence_symbol_modes_checked', 'cases_under_python_O', 'evaluations', 'encode_observed', 'symbols_decoded', 'auto_mode_checked', 'requested_mode_honoured',
             'requested_mode_refused', 'two_byte_inputs']
 EXHAUSTIVE = {'thorough': 'all 65,536 two-byte contents with mode None; all 256 one-byte contents'}
 TIMEOUT = {'quick': 3600, 'thorough': 21600}
+OPT_SLICE = {'quick': 120, 'thorough': 1500}     # cases re-run by one more worker under python -O (core.run_sharded)
 TRAILS = [0x00, 0x3f, 0x40, 0x7e, 0x7f, 0x80, 0xfc, 0xfd, 0xff]
 
 
@@ -99,12 +100,39 @@ def gen_cases(tier, seed):
         for base in ('A%sB', '1%s5', '%s', 'HELLO%sWORLD', '12%s'):
             cases.append(common.mk(base % ch, tag='almost'))
             cases.append(common.mk(base % ch, tag='almost', mode=rng.choice(['alphanumeric', 'numeric'])))
+    # the mode of the symbols of a sequence: content of one class, every chunk of it is of that class too, so every
+    # symbol carries the mode indicator of the first applicable mode - also when the content is longer than one symbol
+    # could ever hold (kanji: 1817 characters)
+    for cls, n_chars in (('digits', 300), ('digits', 8000), ('alnum', 500), ('alnum', 5000), ('kana', 120), ('kana', 1817), ('kana', 1818),
+                         ('kana', 2500), ('ascii', 400), ('ascii', 3000)):
+        for sel in ({'symbol_count': 16}, {'symbol_count': 9}, {'version': 40}):
+            if tier == 'quick' and n_chars > 3000 and 'version' in sel:
+                continue
+            cases.append({'fn': 'make_sequence', 'content': gen.content_of(rng, cls, n_chars * (2 if cls == 'kana' else 1)), 'kw': dict(sel), 'tag': 'sequence-mode',
+                          'expect_mode': {'digits': 'numeric', 'alnum': 'alphanumeric', 'kana': 'kanji', 'ascii': 'byte'}[cls]})
     rng.shuffle(cases)
     return cases
 
 
 def after(case, q, ex, rec):
     content, kw = case['content'], case['kw']
+    if case.get('tag') == 'sequence-mode':
+        if ex is not None:
+            rec.count('sequence_mode_refused')
+            return
+        want = oracle.spec_parts(content, None, None)[0]['mode']      # the class of the whole content (independent model)
+        for i, sym in enumerate(q):
+            s, err = oracle.read(sym.matrix)
+            if s is None or not s.segments:
+                continue
+            rec.count('sequence_symbol_modes_checked')
+            got = s.segments[0]['mode']
+            if got != want or sym.mode != got:
+                rec.deviation('C07', 'sequence-symbol-mode', {'symbol': i, 'of': len(q), 'indicator': got, 'reported': sym.mode,
+                                                              'expected': want, 'characters': len(content)})
+                break
+        rec.seen('seqmode|%s|%d' % (want, len(q)))
+        return
     try:
         a = oracle.normalize_args(dict(kw, content=content))
         parts = oracle.spec_parts(content, a.get('mode'), a.get('encoding'))
